@@ -9,6 +9,8 @@ package mcp
 import (
 	"encoding/json"
 	"fmt"
+	"math"
+	"strconv"
 
 	"trpc.group/trpc-go/trpc-mcp-go/internal/errors"
 )
@@ -143,6 +145,24 @@ func NewJSONRPCNotificationFromMap(method string, params map[string]interface{})
 }
 
 // RequestId is the base request id struct for all MCP requests.
+// requestIDKey renders a request ID for matching a response with its request. An integer ID
+// reads back from JSON as float64; "%v" would print 1000000 as "1e+06" and the ID a request was
+// sent with (an int64) as "1000000", so integral numbers are rendered the same way whatever Go
+// type carries them.
+func requestIDKey(id interface{}) string {
+	switch v := id.(type) {
+	case float64:
+		if v == math.Trunc(v) && math.Abs(v) < 1<<63 {
+			return strconv.FormatInt(int64(v), 10)
+		}
+	case float32:
+		return requestIDKey(float64(v))
+	case json.Number:
+		return v.String()
+	}
+	return fmt.Sprintf("%v", id)
+}
+
 type RequestId interface{}
 
 // JSONRPCMessageType represents the type of a JSON-RPC message
